@@ -360,15 +360,15 @@ Section Preserve.
   Qed.
 
   (*ASSEMBLY*)
-  Definition Q (e : pexpr) : Prop := P e /\ match e with EFmt _ x => P x | _ => True end.
+  Definition PQ (e : pexpr) : Prop := P e /\ match e with EFmt _ x => P x | _ => True end.
 
-  Lemma Forall_Q_P l : Forall Q l -> Forall P l.
+  Lemma Forall_Q_P l : Forall PQ l -> Forall P l.
   Proof. intro H. eapply Forall_impl; [|exact H]. intros a [Ha _]. exact Ha. Qed.
 
   Lemma P_other e : expr_guard G rho e = false -> P e.
   Proof. intros H c v _ Hg. rewrite H in Hg. discriminate. Qed.
 
-  Lemma preserve_all : forall e, call_free e = true -> Q e.
+  Lemma preserve_all : forall e, call_free e = true -> PQ e.
   Proof.
     induction e using pexpr_ind'; intro Hcf; (split; [|try exact I]); cbn [call_free] in Hcf; try discriminate Hcf.
     - apply P_int.
